@@ -28,15 +28,19 @@ def main():
         if r.returncode:
             print("%s: patch no longer applies" % m["id"]); missed.append(m["id"]); continue
         t0 = time.time()
-        r = sh(["/venv/bin/python", "-m", "xv", "check", m["property"], "--tier", "quick"],
+        # (a change whose effect belongs to another property is re-run
+        # against that property's check: the one that caught it when seeded)
+        cb = m.get("caught_by") or []
+        chk = m["property"] if (not cb or m["property"] in cb) else cb[0]
+        r = sh(["/venv/bin/python", "-m", "xv", "check", chk, "--tier", "quick"],
                cwd=VERIF, env=dict(os.environ, XV_REPO=WT), timeout=3600)
         first = [l[:200] for l in r.stdout.split("\n") if l.startswith("# ")][:1]
-        m["recheck"] = {"head": head, "check": m["property"], "exit": r.returncode,
+        m["recheck"] = {"head": head, "check": chk, "exit": r.returncode,
                         "first": first, "wall_s": round(time.time() - t0, 1)}
         json.dump(m, open(mf, "w"), indent=1)
         n += 1
         ok = r.returncode == 1 or (m.get("expected_uncaught") and r.returncode == 0)
-        print("%s: %s exit=%d %.0fs %s" % (m["id"], m["property"], r.returncode,
+        print("%s: %s exit=%d %.0fs %s" % (m["id"], chk, r.returncode,
                                            time.time() - t0, "" if ok else "** NOT CAUGHT **"))
         if not ok:
             missed.append(m["id"])
